@@ -414,6 +414,48 @@ def check_exact_pruning(model, rep):
            f'`{src(tol[0])[:70]}` compares against a small tolerance inside factor(): the decomposition into monomials is exact algebra', statement='no-tolerance')
 
 
+def _disjoint_loop_ids_by_interpretation(h):
+    """disjoint_loop_ids(target, values) is interpreted (sa.miniexec) on small loop-id sets, including ids of the form the function itself generates: the mapping
+    handed to _replace_loop_ids renames exactly the ids common to target and values, to pairwise different ids that occur in neither; without a clash the values are returned."""
+    import itertools
+    from sa.miniexec import MiniExec, Sym, Returned, RaisedIn, AssertionFailed
+    from sa.algebra import Unsupported
+    cases = [(['a', 'b'], {'x': ['a', 'c'], 'y': ['b']}), (['a'], {'x': ['b']}), ([], {'x': ['a']}), (['a', '_renamed_0'], {'x': ['a', '_renamed_1'], 'y': ['a']}), (['q', 'r', 's'], {'x': ['s', 'r', 'q', '_renamed_0']})]
+    try:
+        for tl, vals in cases:
+            calls = []
+
+            def repl(value, mapping, calls=calls):
+                calls.append((value, dict(mapping)))
+                return ('renamed', id(value))
+            values = {k: Sym(_loops=[Sym(loop_id=i) for i in v]) for k, v in vals.items()}
+            ps = [a.arg for a in h.node.args.args]
+            me = MiniExec({ps[0]: Sym(_loops=[Sym(loop_id=i) for i in tl]), ps[1]: values, 'asarray': (lambda v: v), '_LoopId': (lambda s_: s_), 'itertools': Sym(count=itertools.count, chain=itertools.chain),
+                           '_replace_loop_ids': repl, 'str': str, 'set': set, 'frozenset': frozenset, 'dict': dict})
+            try:
+                me.run(h.node.body)
+                return False
+            except Returned as r:
+                got = r.value
+            taken = set(tl)
+            used = {i for v in vals.values() for i in v}
+            clash = taken & used
+            if not clash:
+                if calls and any(m for _, m in calls):
+                    return False
+                continue
+            if not isinstance(got, dict) or set(got) != set(vals) or len(calls) != len(vals):
+                return False
+            for value, m in calls:
+                if set(m) != clash or len(set(m.values())) != len(m) or set(m.values()) & (taken | used):
+                    return False
+            if len({tuple(sorted(m.items())) for _, m in calls}) != 1:
+                return False
+    except (Unsupported, AssertionFailed, RaisedIn, TypeError, ValueError, KeyError, IndexError, AttributeError, StopIteration):
+        return False
+    return True
+
+
 def check_capture_avoiding_replace(model, rep):
     """R13.10: _Replace.lower lowers the replacement values OUTSIDE the loops of its operand; an integral that replaces an argument of another integral gets the
     same loop id as the integral it ends up in (`_sample_<depth>`), and the simplifier identifies two nested loops with one id.  Before substitution the
@@ -441,8 +483,7 @@ def check_capture_avoiding_replace(model, rep):
     h = model.functions.get('evaluable:disjoint_loop_ids')
     ok2 = False
     if h is not None:
-        t = src(h.node)
-        ok2 = 'target._loops' in t and '_loops' in t.replace('target._loops', '') and '&' in t and '_replace_loop_ids(' in t and 'not in taken' in t and 'not in used' in t
+        ok2 = _disjoint_loop_ids_by_interpretation(h)
     rep.ob('R13.10', 'evaluable:disjoint_loop_ids', h.where() if h is not None else lower.where(), ok2, 'disjoint_loop_ids renames the loop ids that occur in both, to ids that occur in neither' if ok2 else
            'evaluable.disjoint_loop_ids is missing or no longer renames the ids common to target and values to fresh ones', statement='disjoint-loop-ids')
 
